@@ -104,6 +104,43 @@ def _same_name_chunk(args):
     return dict(violations=_dedup(out), counts=counts, outcomes=[])
 
 
+def _event_group_one(args):
+    """event-grouped simulation: a co-running strategy brings a SECOND market of the same event into the run, one
+    that closes while the first market is still trading.  The first strategy's ledger on its own market is the one
+    it has alone (the other market's updates, closure and clean-up do not touch it)."""
+    hist_name, ai, b_len = args
+    progs = programs(False)
+    A = progs[ai]
+    out = []
+    counts = {"clause:C13.a": 0, "event_group_pairs": 0}
+    case = dict(event_group=[hist_name, ai, b_len])
+
+    def run(with_b):
+        ticks1 = [[200, L.EVENTS[e]] for e in HISTORIES[hist_name]]
+        m1 = (simx.MarketSpec(market_id="1.100000001", event_id="30000001", book0=L.BOOK0), ticks1)
+        kw = dict(max_order_exposure=None, max_selection_exposure=None, max_live_trade_count=3)
+        strategies = [dict(script={(0, t): acts for t, acts in A.items()}, name="A", kw=dict(kw), markets=[0])]
+        markets = [m1]
+        if with_b:
+            # the second market of the event starts 70 ms later and closes after b_len updates
+            ticks2 = [[200, L.EVENTS["T21"]]] * b_len + [[200, L.EVENTS["CL"]]]
+            markets.append((simx.MarketSpec(market_id="1.100000002", event_id="30000001", book0=L.BOOK0, t0=simx.T0 + 70), ticks2))
+            strategies.append(dict(script={(1, 0): [L.P("PBn")]}, name="B", kw=dict(kw), markets=[1]))
+        L._install_created_tracking()
+        w = simx.SimWorld(markets, strategies, event_processing=True).run()
+        return w, ledger(w.strategies[0], w)
+
+    w0, base = run(False)
+    w1, got = run(True)
+    counts["clause:C13.a"] += 1
+    counts["event_group_pairs"] += 1
+    if w0.run_exception is not None or w1.run_exception is not None:
+        out.append(core.v("C13.a", ("process_market_book", "event-group", "exception"), "run raised %r / %r" % (w0.run_exception, w1.run_exception), case))
+    elif got != base:
+        out.append(core.v("C13.a", ("process_market_book", "event-group", "ledger"), "history %s: ledger of A on its own market differs when another strategy brings in a second market of the event that closes after %d updates\nalone=%s\nwith =%s" % (hist_name, b_len, base, got), case))
+    return dict(violations=out, counts=counts, outcome=str(("eg", hist_name, ai, b_len, len(base))))
+
+
 _AIO = None
 
 
@@ -570,6 +607,13 @@ def run(tier):
         rep.add_violations(r["violations"])
         rep.merge_counts(r["counts"])
         runs += r["counts"]["same_name_pairs"]
+    ej = [(hn, ai, bl) for hn in ("H1", "H2", "H4") for ai in range(0, n0, 3) for bl in (1, 2, 3)]
+    for r in core.pmap(_event_group_one, ej):
+        rep.add_violations(r["violations"])
+        rep.merge_counts(r["counts"])
+        rep.outcomes.add(r["outcome"])
+    runs += 2 * len(ej)
+    rep.need("event_group_pairs")
     oj = [(hn, lt, bn) for hn in HISTORIES for lt in (1, 2, 3, 4) for bn in ("PB", "PL", "P2")]
     for r in core.pmap(_orders_callback_one, oj):
         rep.add_violations(r["violations"])
@@ -628,6 +672,11 @@ def run(tier):
 
 def replay(rep):
     c = rep["case"]
+    if "event_group" in c:
+        r = _event_group_one(tuple(c["event_group"]))
+        for d in r["violations"]:
+            print(d["key"], d["detail"][:300])
+        return 1 if r["violations"] else 0
     if "same_name" in c:
         r = _same_name_chunk((c["same_name"][0], c["same_name"][1], [c["same_name"][2]]))
         for d in r["violations"]:
